@@ -19,6 +19,8 @@ func init() {
 		Thorough:   []ConfigLoad{{"legacy", []string{"./..."}}, {"default", []string{"./proto", "./internal/impl", "./internal/encoding/messageset"}}},
 		Run: func(c *Ctx) {
 			c.ruleMessageSetFrame("R-MSET-FRAME")
+			c.ruleLazyBufRecords("R-LAZYBUF-RECORDS", 3)
+			c.ruleExtLazyParity("R-EXT-LAZY-PARITY", extLazyPairs, 3)
 			c.ruleUnknownGuard("R-UNKNOWN-GUARD", 5)
 			c.ruleNegLen("R-NEG-LEN", []string{"internal/encoding/messageset"}, map[string]string{
 				"internal/encoding/messageset.ConsumeFieldValue nn": "re-parses the length prefix of `message`, which is b[:n:n] of a ConsumeBytes call that already succeeded in this function",
@@ -29,57 +31,9 @@ func init() {
 }
 
 // msetOps: multiset of frame operations of a messageset function, expanding
-// calls to the package's own frame helpers.
+// calls to the package's own frame helpers (see frameOps).
 func (c *Ctx) msetOps(fi *FuncInfo, depth int) []string {
-	info := fi.Info()
-	var ops []string
-	var visit func(e ast.Node, mult int)
-	visit = func(e ast.Node, mult int) {
-		walk(e, func(n ast.Node) bool {
-			switch x := n.(type) {
-			case *ast.BinaryExpr:
-				if x.Op == token.MUL {
-					if k, ok := constInt(info, x.X); ok && k > 0 && k < 8 {
-						visit(x.Y, mult*int(k))
-						return false
-					}
-				}
-			case *ast.CallExpr:
-				key := calleeKey(info, x)
-				add := func(s string) {
-					for i := 0; i < mult; i++ {
-						ops = append(ops, s)
-					}
-				}
-				switch key {
-				case "encoding/protowire.SizeTag":
-					n, _ := labelName(info, x.Args[0])
-					add("tag:" + n)
-					return false
-				case "encoding/protowire.AppendTag":
-					n, _ := labelName(info, x.Args[1])
-					add("tag:" + n)
-					return false
-				case "encoding/protowire.SizeVarint":
-					add("V(" + exprStr(unparen(x.Args[0])) + ")")
-					return false
-				case "encoding/protowire.AppendVarint":
-					add("V(" + exprStr(unparen(x.Args[1])) + ")")
-					return false
-				}
-				if cf := c.P.Func(key); cf != nil && cf != fi && depth < 3 && strings.HasPrefix(key, "internal/encoding/messageset.") && (strings.HasPrefix(cf.Obj.Name(), "Size") || strings.HasPrefix(cf.Obj.Name(), "Append")) {
-					for i := 0; i < mult; i++ {
-						ops = append(ops, c.msetOps(cf, depth+1)...)
-					}
-					return false
-				}
-			}
-			return true
-		})
-	}
-	visit(fi.Decl.Body, 1)
-	sort.Strings(ops)
-	return ops
+	return c.frameOps(fi, []ast.Node{fi.Decl.Body}, nil, nil, depth)
 }
 
 func (c *Ctx) ruleMessageSetFrame(rule string) {
